@@ -180,6 +180,9 @@ fn replay_one(toks: &[&str]) -> String {
         "C19" => {
             let scratch = c19::scratch();
             let r = c19::observe(&toks[1..], &scratch, 100);
+            common::rm_rf(&scratch);
+            r
+        }
         "C01" => {
             let scratch = common::scratch_root().join("c01r");
             std::fs::create_dir_all(&scratch).unwrap();
@@ -192,6 +195,8 @@ fn replay_one(toks: &[&str]) -> String {
             std::fs::create_dir_all(&scratch).unwrap();
             let r = c04::observe(&toks[1..], &scratch);
             common::rm_rf(&scratch);
+            r
+        }
         "C05" => {
             let scratch = common::scratch_root().join("c05r");
             std::fs::create_dir_all(&scratch).unwrap();
